@@ -16,7 +16,8 @@ place() {
     done
   fi
 }
-run() { (cd $D && timeout 900 bash -c "$CMD") >/tmp/confirm-$S.$1.log 2>&1; echo $?; }
+RUNDIR=$D; echo "$CMD" | grep -q "cd /" || RUNDIR=$WT
+run() { (cd $RUNDIR && timeout 900 bash -c "$CMD") >/tmp/confirm-$S.$1.log 2>&1; echo $?; }
 place; clean_rc=$(run clean)
 git -C $WT checkout -q -- . ; git -C $WT clean -fdq
 git -C $WT apply $D/patch.diff || { echo "$S PATCH-DOES-NOT-APPLY"; exit 3; }
